@@ -86,7 +86,7 @@ def _replay(args):
     from csvpath import CsvPaths
 
     rng = random.Random(seed * 7919 + idx)
-    idof = {1: "i1", 2: "i2", 3: "", 4: "i3"}
+    idof = {1: "i1", 2: "", 3: "", 4: "i2"}
     texts = {m: member_text(rng, m, idof[m]) for m in range(1, 5)}
     scratch.fresh_subdir("np")
     groups = sorted(hist[0]["obs"].keys())
@@ -208,6 +208,12 @@ def main(tier):
     r2 = require_ok(run_tlc("NamedPaths", "_gen_NP_emit.cfg", timeout=1500, keep_stdout=False), "NamedPaths emit")
     rep.add_tlc(f"NamedPaths all histories of length {emit[2]} ({emit[0]} members, lists <= {emit[1]})", r2)
     hists = list(r2.records)
+    # every single group of up to 3 members (an identified member next to two without identity) with all its selections
+    with open(os.path.join(spec, "_gen_NP_one.cfg"), "w") as f:
+        f.write(_cfg(3 if tier == "quick" else 4, 3, 1, emit=True))
+    r2b = require_ok(run_tlc("NamedPaths", "_gen_NP_one.cfg", timeout=900, keep_stdout=False), "NamedPaths single adds")
+    rep.add_tlc("NamedPaths every single add of a list of <= 3 members", r2b)
+    hists += list(r2b.records)
     with open(os.path.join(spec, "_gen_NP_sim.cfg"), "w") as f:
         f.write(_cfg(4, 3, sim[1], emit=True))
     r3 = require_ok(run_tlc("NamedPaths", "_gen_NP_sim.cfg", timeout=600, keep_stdout=False, workers=1,
